@@ -9,7 +9,8 @@
     proposals are those of the enumeration ([In r (nni_list t)]). *)
 From Coq Require Import String ZArith QArith Bool Arith List Permutation.
 From GT Require Import Base.UTree Spec.Obs Spec.Unrooted Spec.NNISpec Model.Reroot Model.NNI Model.Newick
-     Proofs.RerootBase Proofs.NNIBase Proofs.NNIMain Proofs.NNICount Proofs.NNIDistinct Proofs.NNITop.
+     Proofs.RerootBase Proofs.NNIBase Proofs.NNIMain Proofs.NNICount Proofs.NNIDistinct Proofs.NNIList
+     Proofs.NNIInner Proofs.NNITop.
 Import ListNotations.
 Local Close Scope Q_scope.
 Local Open Scope string_scope.
@@ -178,3 +179,90 @@ Example C17_example_rooted_tip :
   inner_branch_count witness_rooted_tip = 1 /\ inner_root_kids witness_rooted_tip = 1.
 Proof. exact witness_rooted_tip_facts. Qed.
 Print Assumptions C17_example_rooted_tip.
+
+(** * the list of proposals itself *)
+(** no proposal twice; two for every branch of Tree.Edges() both of whose ends have three
+    neighbours; [r_edge] is the index of the branch in Tree.Edges() ([edge_locs] runs parallel
+    to [edges_pc]); with a proposal its twin (the other exchange) is in the list; one
+    proposal per (branch, exchange) *)
+Theorem C17_proposals_exactly_two :
+  forall t, wf t = true ->
+    NoDup (nni_list t) /\
+    length (nni_list t) = 2 * length (filter both3 (edges_pc t)) /\
+    (forall r, In r (nni_list t) ->
+       nth_error (edge_locs t) (r_edge r) = Some (r_path r, r_k r) /\
+       In (mkNNI (r_edge r) (r_path r) (r_k r) (r_j r) (negb (r_cross r)) (r_flip r)) (nni_list t)) /\
+    (forall r1 r2, In r1 (nni_list t) -> In r2 (nni_list t) ->
+       r_path r1 = r_path r2 -> r_k r1 = r_k r2 -> r_cross r1 = r_cross r2 -> r1 = r2).
+Proof. exact proposals_exactly_two. Qed.
+Print Assumptions C17_proposals_exactly_two.
+
+Theorem C17_edge_locs_designate :
+  forall t, Forall2 (designates t) (edge_locs t) (edges_pc t).
+Proof. exact edge_locs_designate. Qed.
+Print Assumptions C17_edge_locs_designate.
+
+(** * inner branches are the non-trivial bipartitions *)
+(** for every binary tree with distinct tip names, rooted or not, the structural count
+    ([internal_edges], the two root branches of a rooted tree counted once) is the number of
+    non-trivial bipartitions of [usplits] *)
+Theorem C17_inner_branches_are_splits :
+  forall t, wf t = true -> binary t = true -> NoDup (leaves t) ->
+    inner_branch_count t = inner_split_count t.
+Proof. exact inner_counts. Qed.
+Print Assumptions C17_inner_branches_are_splits.
+
+Theorem C17_two_per_inner_split_unrooted :
+  forall t, wf t = true -> binary t = true -> NoDup (leaves t) -> degree t = 3 ->
+    length (nni_list t) = 2 * inner_split_count t.
+Proof. exact two_per_inner_split_unrooted. Qed.
+Print Assumptions C17_two_per_inner_split_unrooted.
+
+(** * distinct as trees *)
+Theorem C17_neighbours_distinct_trees :
+  forall t r1 r2 t1 t2,
+    wf t = true -> binary t = true -> NoDup (leaves t) ->
+    In r1 (nni_list t) -> In r2 (nni_list t) ->
+    (r_path r1, r_k r1, r_cross r1) <> (r_path r2, r_k r2, r_cross r2) ->
+    apply r1 t = Some t1 -> apply r2 t = Some t2 ->
+    t1 <> t2 /\ utree_eqb t1 t2 = false.
+Proof. exact neighbours_distinct_trees. Qed.
+Print Assumptions C17_neighbours_distinct_trees.
+
+(** a neighbour is never the original tree *)
+Theorem C17_neighbour_differs :
+  forall t r t1,
+    wf t = true -> binary t = true -> NoDup (leaves t) ->
+    In r (nni_list t) -> apply r t = Some t1 ->
+    ~ same_splits t1 t /\ t1 <> t /\ utree_eqb t1 t = false.
+Proof. exact neighbour_differs. Qed.
+Print Assumptions C17_neighbour_differs.
+
+(** * outside the property: multifurcations *)
+(** every proposal sits on a branch both of whose ends have exactly three neighbours; a
+    branch with an end of another degree gets none.  (Reversibility, [C17_neighbour],
+    [C17_one_split], [C17_count] above do not assume a binary tree.) *)
+Theorem C17_proposal_degrees :
+  forall t r, In r (nni_list t) ->
+    exists n1 ec n2,
+      node_at t (r_path r) = Some n1 /\ nth_error (uslots n1) (r_k r) = Some (Some (ec, n2)) /\
+      degree n1 = 3 /\ degree n2 = 3.
+Proof. exact nni_list_degrees. Qed.
+Print Assumptions C17_proposal_degrees.
+
+Theorem C17_skips_multifurcation :
+  forall t r n1 ec n2,
+    node_at t (r_path r) = Some n1 -> nth_error (uslots n1) (r_k r) = Some (Some (ec, n2)) ->
+    degree n1 <> 3 \/ degree n2 <> 3 -> ~ In r (nni_list t).
+Proof. exact nni_skips_multifurcation. Qed.
+Print Assumptions C17_skips_multifurcation.
+
+Example C17_example_multifurcation :
+  wf witness_multi = true /\ binary witness_multi = false /\
+  map (fun x => (degree (fst (fst x)), degree (snd x))) (filter (fun x => negb (is_tip (snd x))) (edges_pc witness_multi))
+  = [(3, 3); (3, 3); (3, 3); (3, 4)] /\
+  map (fun r => (r_edge r, r_path r, r_k r, r_cross r)) (nni_list witness_multi)
+  = [(0, [], 0, false); (0, [], 0, true); (3, [], 1, false); (3, [], 1, true);
+     (4, [1], 1, false); (4, [1], 1, true)].
+Proof. exact witness_multi_facts. Qed.
+Print Assumptions C17_example_multifurcation.
